@@ -369,7 +369,7 @@ def canon_rows_to_tokens(env, co, keys, values, traj_by_id):
     return out
 
 
-def run_estimate(chk, co, rng, traj_by_id, lines, pending, ix_override=None, scalar_id=None):
+def run_estimate(chk, co, rng, traj_by_id, lines, pending, ix_override=None, scalar_id=None, layout_override=None):
     """model.estimate in its four input/output layouts."""
     env, pop = co.env, co.pop
     pd, np = env["pd"], env["np"]
@@ -406,9 +406,20 @@ def run_estimate(chk, co, rng, traj_by_id, lines, pending, ix_override=None, sca
     has_dup_pair = len(set(ix_list)) < len(ix_list)
 
     calls = [("dict", False), ("frame", True), ("ixframe", None), ("ixdict", False)]
+    # layout of the requested index: the levels ID and TIME in either order, possibly among extra levels
+    # ("join so to handle multi-levels cases"): the result must come back on exactly the requested index
+    layout = layout_override if layout_override is not None else rng.choice(
+        [["ID", "TIME"], ["ID", "TIME"], ["TIME", "ID"], ["ID", "TIME", "VISIT"], ["VISIT", "TIME", "ID"], ["TIME", "VISIT", "ID"]])
+
+    def make_index():
+        cols = {"ID": [a for a, _ in ix_list], "TIME": [b for _, b in ix_list], "VISIT": list(range(100, 100 + len(ix_list)))}
+        return pd.MultiIndex.from_arrays([cols[n] for n in layout], names=layout)
+
     for mode, to_df in calls:
         case = co.case_json({"op": "estimate", "mode": mode, "request_ids": req_ids, "ix": ix_list if mode.startswith("ix") else None,
-                             "scalar_id": scalar_id})
+                             "scalar_id": scalar_id, "layout": layout if mode.startswith("ix") else None})
+        if mode.startswith("ix"):
+            chk.tag("index_layout", "/".join(layout))
         finding = None
         if mode == "ixframe" and has_dup_pair:
             finding = "F17"
@@ -419,9 +430,9 @@ def run_estimate(chk, co, rng, traj_by_id, lines, pending, ix_override=None, sca
                 if mode in ("dict", "frame"):
                     out = co.model.estimate(dict_req(), ip_obj, to_dataframe=to_df)
                 elif mode == "ixframe":
-                    out = co.model.estimate(pd.MultiIndex.from_tuples(ix_list, names=["ID", "TIME"]), ip_obj)
+                    out = co.model.estimate(make_index(), ip_obj)
                 else:
-                    out = co.model.estimate(pd.MultiIndex.from_tuples(ix_list, names=["ID", "TIME"]), ip_obj, to_dataframe=False)
+                    out = co.model.estimate(make_index(), ip_obj, to_dataframe=False)
         except Exception as e:  # noqa
             # F18's region is narrow: the TypeError of the frame index built from a scalar time-point
             fid = finding if (finding == "F18" and isinstance(e, TypeError)) else None
@@ -464,13 +475,23 @@ def run_estimate(chk, co, rng, traj_by_id, lines, pending, ix_override=None, sca
                     want_keys = [(sid, t) for sid in req_ids for t in req_ages(sid)]
                 else:
                     want_keys = list(ix_list)
-                got_keys = [(a, float(b)) for a, b in out.index.tolist()]
+                if mode == "ixframe":
+                    if list(out.index.names) != layout:
+                        fails.append(f"estimate({mode}) index levels {list(out.index.names)} != requested levels {layout}")
+                    elif not out.index.equals(make_index()):
+                        fails.append(f"estimate({mode}) does not come back on the requested index (levels {layout})")
+                    try:
+                        got_keys = list(zip(out.index.get_level_values("ID").tolist(), [float(b) for b in out.index.get_level_values("TIME")]))
+                    except Exception:  # noqa
+                        got_keys = []
+                else:
+                    got_keys = [(a, float(b)) for a, b in out.index.tolist()]
                 if got_keys != [(a, float(b)) for a, b in want_keys]:
                     fails.append(f"estimate({mode}) returned {len(got_keys)} rows {got_keys[:6]}… for the {len(want_keys)} requested (id, age) pairs {want_keys[:6]}…"
                                  " (not exactly the requested pairs in the requested order)")
                 if list(out.columns) != feats:
                     fails.append(f"estimate({mode}) columns {list(out.columns)} != features {feats}")
-                if list(out.index.names) != ["ID", "TIME"]:
+                if mode == "frame" and list(out.index.names) != ["ID", "TIME"]:
                     fails.append(f"estimate({mode}) index names {list(out.index.names)}")
                 rows = canon_rows_to_tokens(env, co, got_keys, out.values.tolist(), traj_by_id)
                 bad = [r for r in rows if r.endswith("@?") or r.endswith("@!")]
@@ -562,7 +583,7 @@ def build_cohort(env, chk, rng, settings=None, path=None):
     return co
 
 
-def process(chk, co, rng, lines, pending, ix_override=None, scalar=False):
+def process(chk, co, rng, lines, pending, ix_override=None, scalar=False, layout=None):
     pop = co.pop
     traj_by_id = {}
     for sid in co.ips:
@@ -573,7 +594,7 @@ def process(chk, co, rng, lines, pending, ix_override=None, scalar=False):
     scalar_id = None
     if scalar:
         scalar_id = next(iter(co.ips))
-    run_estimate(chk, co, rng, traj_by_id, lines, pending, ix_override=ix_override, scalar_id=scalar_id)
+    run_estimate(chk, co, rng, traj_by_id, lines, pending, ix_override=ix_override, scalar_id=scalar_id, layout_override=layout)
     all_ages = [t for ts in co.ages.values() for t in ts]
     nontrivial = any(len(set(ts)) >= 2 for ts in co.ages.values())
     styles = []
@@ -757,5 +778,6 @@ def replay(chk: core.Check, payload):
     co.ips, co.ages = case["ips"], case["ages"]
     lines, pending = [], []
     ix = case.get("ix")
-    process(chk, co, chk.rng, lines, pending, ix_override=[tuple(x) for x in ix] if ix else None, scalar=bool(case.get("scalar_id")))
+    process(chk, co, chk.rng, lines, pending, ix_override=[tuple(x) for x in ix] if ix else None, scalar=bool(case.get("scalar_id")),
+            layout=case.get("layout"))
     compare(chk, lines, pending)
